@@ -90,6 +90,11 @@ func Run(c Val) Val {
 	n := int(c.At(1).Int())
 	gop := c.At(3).Bool()
 	config.VerifSetCacheGop(gop)
+	maxq := int(c.At(2).Int())
+	if maxq == 1000 {
+		maxq = 0 // the built-in limit
+	}
+	media.VerifSetMaxQLen(maxq)
 	ctl := sched.New()
 	ctl.Skip["sweep.zero"] = 1 // close() sweeps the (empty) FLV consumers first; the model's K2 is the RTP sweep
 	s := media.NewStream("/lts/"+strconv.Itoa(n), sdpH264)
@@ -119,6 +124,10 @@ func Run(c Val) Val {
 		return strings.Contains(allowed[thread[:3]], " "+point+" ")
 	}
 	pkts := c.At(4).List()
+	kindOf := map[int64]int64{}
+	for _, pv := range pkts {
+		kindOf[pv.At(0).Int()] = pv.At(1).Int()
+	}
 	remaining := len(pkts)
 	ctl.Go("pub", func() {
 		for _, pv := range pkts {
@@ -175,12 +184,18 @@ func Run(c Val) Val {
 				learn(k)
 			}
 		case 3:
-			ctl.Step("stop:" + strconv.Itoa(k))
+			// StopConsume needs the id StartConsume returned: a stop begins only after the attach returned
+			if ctl.Status("att:"+strconv.Itoa(k)) == "done" {
+				ctl.Step("stop:" + strconv.Itoa(k))
+			}
 		default:
 			ctl.Step("cons:" + strconv.Itoa(k))
 		}
 		for i := 0; i < n; i++ {
 			learn(i)
+			if known[i] {
+				media.VerifApplyMaxQLen(s, cids[i])
+			}
 		}
 		if os.Getenv("LTS_TRACE") != "" {
 			fmt.Fprintf(os.Stderr, "after %v: pub=%s close=%s", tv, ctl.Status("pub"), ctl.Status("close"))
@@ -202,8 +217,18 @@ func Run(c Val) Val {
 		r := recs[i]
 		r.mu.Lock()
 		outs := make([]Val, len(r.out))
+		intact := true
 		for j, id := range r.out {
 			outs[j] = I(id)
+			// byte identity: the delivered packet hashes like the packet that was published under that id
+			orig := MakePacket(id, kindOf[id])
+			h := uint32(2166136261)
+			for _, b := range orig.Data {
+				h = (h ^ uint32(b)) * 16777619
+			}
+			if h != r.hashes[j] {
+				intact = false
+			}
 		}
 		closes := r.closes
 		r.mu.Unlock()
@@ -226,7 +251,7 @@ func Run(c Val) Val {
 		if c.At(5).At(i).Bool() {
 			stp = code(ctl.Status("stop:"+strconv.Itoa(i)), map[string]int64{"h.start": 0, "remove.loaded": 1, "done": 5})
 		}
-		consV[i] = L(L(outs...), I(int64(closes)), I(pc), Bo(reg), I(ql), Bo(disc), I(att), I(stp))
+		consV[i] = L(L(outs...), I(int64(closes)), I(pc), Bo(reg), I(ql), Bo(disc), I(att), I(stp), Bo(intact))
 	}
 	rc, _ := media.VerifCounts(s)
 	pp := code(ctl.Status("pub"), map[string]int64{"h.start": 0, "h.pub": 0, "done": 0, "write.checked": 1, "write.cached": 2, "blocked": 3})
